@@ -132,6 +132,20 @@ def abstract_model(case):
         mk('%s(%s)' % (metal.upper(), t), {metal: 1}, ph, rnd.choice([1, 1, 1.0]))
         for comp in mols:
             mk('%s(%s)' % (_comp_name(comp), t), add(comp, {metal: 1}), ph, rnd.choice([1, 1, 2, 1.0]))
+    # write-edit-write cases: every phase gets a spectator that is the SOLE carrier of an element
+    # and takes part in nothing; the edit plan removes / re-adds species between the two writes
+    M['edits'] = []
+    if case.get('rewrite'):
+        spect = {}
+        for ph, nm, el in [('gas', 'AR', 'Ar')] + [({'T': 'terrace', 'S': 'step'}[t], 'K(%s)' % t, 'K') for t in tags]:
+            pos = rnd.choice(['first', 'last'])
+            sp = mk(nm, {el: 1}, ph, None if ph == 'gas' else 1)
+            if pos == 'first':
+                species.insert(0, species.pop())
+            spect[ph] = nm
+        for ph, nm in sorted(spect.items()):
+            how = rnd.choice(['remove', 'pop', 'remove', 'pop', 'clear_extend', 'append', 'none'])
+            M['edits'].append({'phase': ph, 'how': how, 'name': nm})
     M['species'] = species
     names = {s['name'] for s in species}
     # ---- BEPs
@@ -229,7 +243,7 @@ def abstract_model(case):
     inter = []
     for k in range(case.get('n_interactions', rnd.randint(0, 10 if big else 3)) if tags else 0):
         t = rnd.choice(tags)
-        ads = [s['name'] for s in species if s['name'].endswith('(%s)' % t)]
+        ads = [s['name'] for s in species if s['name'].endswith('(%s)' % t) and not s['name'].startswith('K(')]
         n = rnd.randint(1, 3)
         inter.append({'name_i': rnd.choice(ads), 'name_j': rnd.choice(ads),
                       'intervals': [0] + sorted(rnd.sample([0.1, 0.25, 0.5, 0.75], n - 1)) if rnd.random() < 0.5
@@ -829,6 +843,38 @@ def _first_use_order(M):
     return seen
 
 
+def _apply_edits(M, objs):
+    """Edit the real phases between two writes and return the abstract model after the edits."""
+    import copy
+    M2 = copy.deepcopy(M)
+    ph_by = {p.name: p for p in objs['phases']}
+    for ed in M['edits']:
+        ph, nm, how = ph_by[ed['phase']], ed['name'], ed['how']
+        if how == 'remove':
+            ph.remove_species(nm)
+        elif how == 'pop':
+            ph.pop_species(ph.species_names.index(nm))
+        elif how == 'clear_extend':
+            keep = [sp for sp in ph.copy_species() if sp.name != nm]
+            ph.clear_species()
+            ph.extend_species(keep)
+        elif how == 'append':
+            extra = {'name': 'HE' if ed['phase'] == 'gas' else 'CS(%s)' % nm[2], 'family': 'nasa',
+                     'phase': ed['phase'], 'elements': {'He' if ed['phase'] == 'gas' else 'Cs': 1},
+                     'n_sites': None if ed['phase'] == 'gas' else 1}
+            extra.update(_thermo(random.Random(7), 'nasa'))
+            obj = _mk_species(extra, None)
+            ph.append_species(obj)
+            objs['species'].append(obj)
+            M2['species'].append(extra)
+            continue
+        else:
+            continue
+        M2['species'] = [sp for sp in M2['species'] if sp['name'] != nm]
+        objs['species'] = [sp for sp in objs['species'] if sp.name != nm]
+    return M2
+
+
 def run_case(case):
     from pmutt.io.omkm import write_cti, write_thermo_yaml
     M = abstract_model(case)
@@ -869,6 +915,23 @@ def run_case(case):
             out['msg_' + fmt] = proj['msg']
         if raised or proj.get('msg'):
             out['events'][fmt][0]['msg'] = out.get('msg_' + fmt, '')
+        if M['edits'] and text is not None:
+            # write - edit - write: the second document is judged like the first
+            raised2, text2 = '', None
+            try:
+                M2 = _apply_edits(M, objs)
+                kw.update(phases=objs['phases'], species=objs['species'])
+                text2 = write_thermo_yaml(**kw) if fmt == 'yaml' else write_cti(**kw)
+            except Exception as ex:
+                raised2 = type(ex).__name__
+                M2 = M
+                out['msg2_' + fmt] = '%s: %s' % (type(ex).__name__, str(ex)[:300])
+            proj2 = {} if text2 is None else (project_yaml(text2) if fmt == 'yaml' else project_cti(text2))
+            ev2 = _events(fmt, M2, objs, proj2, raised2, f)
+            ev2[0]['second'] = True
+            if raised2 or proj2.get('msg'):
+                ev2[0]['msg'] = out.get('msg2_' + fmt, proj2.get('msg', ''))
+            out['events'][fmt] = out['events'][fmt] + ev2
     return out
 
 
@@ -918,6 +981,8 @@ def event_tags(case, events, idxs, clause):
     b = _fmt_at(events, idxs[0])
     fmt = b.get('fmt', '')
     t = {'fmt': fmt, 'entry': ev['ev']}
+    if b.get('second'):
+        t['after_edit'] = True
     fx = facts(case)
     for k in RELEVANT.get((clause, fmt), ()):
         t[k] = fx[k]
@@ -984,6 +1049,8 @@ def generate(ctx, rnd):
             c['gas_first'] = True
         if k % 13 == 6:
             c['n_iface'] = 0
+        if k % 3 == 2:
+            c['rewrite'] = True
         if not ctx.quick and k % 10 == 9:
             c['size'] = 'huge'
         if k % 7 == 3:
